@@ -163,7 +163,7 @@ def part_patterns(res, rng, tier, n):
     from rv.note import NOTECMD
     vals = sorted({int(m) for m in NOTECMD})
     max_lines = 64 if tier == "quick" else 512
-    shapes = [(1, 1), (32, 1), (1, max_lines), (32, 64), (3, 5), (4, 32)]
+    shapes = [(1, 1), (32, 1), (1, max_lines), (32, 64), (3, 5), (4, 32), (2, 300), (1, 257), (3, 1024)]  # (tracks, lines); small ints are cached objects in CPython, large ones are not
     for k in range(n):
         if k < len(shapes):
             tracks, lines = shapes[k]
